@@ -72,8 +72,14 @@ fn fresh() -> FsTzdbProvider {
 /// Solo, fault-free execution of the wrapper: the reference for C20.
 fn solo_wrapper(op: &Op) -> ExecInfo {
     reset_shared();
-    let r = exec::<FsTzdbProvider>(op, Mode::Wrapper, false);
-    r
+    if RESET_UNAVAILABLE.load(std::sync::atomic::Ordering::Relaxed) {
+        // No simulated restart: "the same call alone in a fresh process" can
+        // only be had from the provider-taking twin on a brand-new provider
+        // (the wrapper on the shared provider would inherit whatever earlier
+        // runs left behind, poison included).
+        return exec(op, Mode::Twin(&fresh()), false);
+    }
+    exec::<FsTzdbProvider>(op, Mode::Wrapper, false)
 }
 
 fn record_fault(r: &mut RunReport, op: &Op, info: &ExecInfo) {
